@@ -343,4 +343,61 @@ example :
     (getCounts 2 (some { cur := 5, prev := 0, ws := 10 }) (20000 * nsPerSec)).prev = 0 ∧
     (getCounts 2 none (20000 * nsPerSec)).prev = 0 := by decide
 
+/-! ### sliding window: keys do not influence each other -/
+
+/-- the answers of a list of requests served one after the other -/
+def answersOf (cfg : WinCfg) (txt : Bytes) : WinStore → List WinReq → List WinObs
+  | _, [] => []
+  | st, q :: rest => (serve1 cfg txt st q).2 :: answersOf cfg txt (serve1 cfg txt st q).1 rest
+
+/-- requests of one key only look at (and leave) that key's entry -/
+theorem lemma_answers_agree (cfg : WinCfg) (txt : Bytes) (k : Bytes) (l : List WinReq) (st1 st2 : WinStore)
+    (hl : ∀ q ∈ l, q.key = k) (hst : st1.lookup k = st2.lookup k) :
+    answersOf cfg txt st1 l = answersOf cfg txt st2 l := by
+  induction l generalizing st1 st2 with
+  | nil => rfl
+  | cons q rest ih =>
+    have hq : q.key = k := hl q (List.mem_cons_self ..)
+    have ha : (serve1 cfg txt st1 q).2 = (serve1 cfg txt st2 q).2 := by
+      show winAnswer cfg txt (decide_ cfg.limit cfg.W (getCounts cfg.W (st1.lookup q.key) q.now) q.now) =
+           winAnswer cfg txt (decide_ cfg.limit cfg.W (getCounts cfg.W (st2.lookup q.key) q.now) q.now)
+      rw [hq, hst]
+    have hs : ((serve1 cfg txt st1 q).1).lookup k = ((serve1 cfg txt st2 q).1).lookup k := by
+      rw [lemma_serve1_store, lemma_serve1_store, hq, lemma_wlookup_set_self, lemma_wlookup_set_self, hst]
+    simp only [answersOf, ha]
+    rw [ih _ _ (fun x hx => hl x (List.mem_cons_of_mem _ hx)) hs]
+
+/-- **sliding window, keys are independent** (store with the one-call interface, any clock): in a trace over any
+    number of keys, the answers to the requests of key `k` are exactly the answers the same requests get when they
+    are served alone — the traffic of other keys changes nothing, neither verdicts nor header values -/
+theorem window_keys_independent (cfg : WinCfg) (txt : Bytes) (k : Bytes) (l : List WinReq) (st : WinStore) :
+    ((l.zip (answersOf cfg txt st l)).filter (fun p => p.1.key == k)).map (·.2) =
+      answersOf cfg txt st (l.filter (fun q => q.key == k)) := by
+  induction l generalizing st with
+  | nil => rfl
+  | cons q rest ih =>
+    simp only [answersOf, List.zip_cons_cons, List.filter_cons]
+    by_cases hk : q.key = k
+    · have hb : (q.key == k) = true := by simp [hk]
+      simp only [hb, if_true, List.map_cons, answersOf]
+      rw [ih]
+    · have hb : (q.key == k) = false := by simp [hk]
+      simp only [hb, Bool.false_eq_true, if_false]
+      rw [ih]
+      apply lemma_answers_agree cfg txt k
+      · intro x hx
+        have := (List.mem_filter.mp hx).2
+        simpa using this
+      · rw [lemma_serve1_store]
+        exact lemma_wlookup_set_other _ _ _ _ (fun h => hk h.symm)
+
+/-- non-vacuity: key `a` (limit 1) is rejected at its second request whether or not key `b` is busy in between -/
+example :
+    let cfg : WinCfg := { limit := 1, W := 3600, headers := true, enforce := true, hasCallback := false, atomic := true }
+    let a1 : WinReq := { key := ['a'], now := 7200000000007 }
+    let b1 : WinReq := { key := ['b'], now := 7200000000008 }
+    let a2 : WinReq := { key := ['a'], now := 7200000000009 }
+    (answersOf cfg [] [] [a1, b1, b1, a2]).map (·.status) = [200, 200, 429, 429] ∧
+    (answersOf cfg [] [] [a1, a2]).map (·.status) = [200, 429] := by decide
+
 end Rivaas.C16
